@@ -320,6 +320,60 @@ PROPS["C14"] = {
 }
 
 
+def cfg_oracle(pid, res, driver):
+    """Independent re-statement of the documented ranges (property text) in Python."""
+    findings = []
+    data = res.stream_data.get("CFG")
+    if data:
+        import struct
+        for c, o in zip(data["cases"], data["impl"].get("debug", [])):
+            t = c.split(" ")
+            if t[2] != "V":
+                continue
+            cfg = dict(kv.split("=") for kv in t[3].split(";"))
+            ok = 32 <= int(cfg["bs"]) <= 32767 and int(cfg["fo"]) <= 4 and 1 <= int(cfg["lo"]) <= 24 \
+                and 1 <= int(cfg["qp"]) <= 15 and int(cfg["mp"]) <= 14 and cfg["dm"] == "0" and cfg["ma"] == "0"
+            if cfg["os"] != "bc":
+                ok = ok and 1 <= int(cfg["os"]) <= 64
+            if cfg["win"] != "r":
+                a = struct.unpack("<f", struct.pack("<I", int(cfg["win"][1:])))[0]
+                ok = ok and (0.0 <= a <= 1.0)
+            verdict = o.split(" ")[1] if " " in o else o
+            if verdict not in ("ok", "err") or (verdict == "ok") != ok:
+                findings.append({"case": c, "impl": o[:100], "why": "verification %s a configuration that is %s the documented ranges" % (
+                    "accepted" if verdict == "ok" else "rejected/crashed on", "outside" if not ok else "inside")})
+    if pid == "C07":
+        findings += enc_oracle("C07", res, driver)
+    return findings
+
+
+CFG_STREAM = {"name": "CFG", "quick": 3000, "thorough": 60000, "profiles": ["debug"],
+              "nontrivial": lambda c, o: c.split(" ")[2] == "P" or " err" in o}
+CFG_RULE = ("CFG: random configurations with 0-2 fields pushed to/over their limits (block size 0/31/32/32767/32768/2^40, fixed order "
+            "4/5/2^33, partitions 0/1/64/65, LPC order 0/1/24/25, precision 0/1/15/16, max parameter 14/15, alpha bit patterns "
+            "+-0, 1, 1+ulp, negative, inf, NaNs, experimental switches) through (V) into_verified, (S) toml::to_string -> canonical "
+            "document, (P) canonical document with random omissions at every nesting level and injected faults (wrong type, "
+            "workers = 0, unknown key, missing/unknown tag) -> toml text -> from_str. Non-trivial = a parse case or a rejection.")
+
+PROPS["C07"] = {
+    "coq": "theories/Props/C07.v",
+    "theorems": ["C07_verify_exact", "C07_verified_no_panic"],
+    "streams": "CFG+ENC", "rule": "CFG+ENC",
+    "oracle": cfg_oracle,
+    "assumptions": ["PARTIAL for panics inside the floating-point estimators (NaN/inf asserts in lpc.rs): not expressible in the model, monitored on every ENC case",
+                    "lpc_oracle_ok is a hypothesis on the estimator's answer; stream/frame level no-panic is inherited through encode_frame's mapM (checked by ENC)"],
+}
+PROPS["C19"] = {
+    "coq": "theories/Props/C19.v",
+    "theorems": ["C19_roundtrip", "C19_empty_document_is_default", "C19_omit_stereo_section", "C19_omit_subframe_section",
+                 "C19_omit_scalars", "C19_partitions_default", "C19_verify_agrees"],
+    "streams": [CFG_STREAM], "rule": CFG_RULE,
+    "oracle": cfg_oracle,
+    "assumptions": ["toml 0.5 and serde derive are trusted; the model is at document level (alpha given as a TOML float, integers within i64)",
+                    "omission theorems are stated for whole sections and for the scalar top-level fields; arbitrary subsets are covered by the CFG stream"],
+}
+
+
 def check_coq(pid, spec, res):
     """Build the proofs; returns True when the property's theorems are all checked."""
     closure = fv.dep_closure(spec["coq"])
@@ -425,6 +479,9 @@ def run_check(pid, spec, tier, seed, replay):
     if spec.get("streams") == "SRC+DLV":
         spec["streams"] = [dict(SRC_STREAM), dict(DLV_STREAM)]
         spec["rule"] = spec["rule"] + DLV_RULE
+    if spec.get("streams") == "CFG+ENC":
+        spec["streams"] = [dict(CFG_STREAM), dict(ENC_STREAM)]
+        spec["rule"] = CFG_RULE + " " + ENC_RULE
     if spec.get("streams") == "DLV":
         spec["streams"] = [dict(DLV_STREAM)]
     if spec.get("rule") == "ENC+DLV":
@@ -585,7 +642,7 @@ def enc_oracle(pid, res, driver, stream="ENC"):
         f = dict(kv.split("=") for kv in dt[2:12])
         samples = [] if dt[12] == "-" else [int(x) for x in dt[12].split(",")]
         lens = [] if f["lens"] in ("-", "?") else [int(x) for x in f["lens"].split(",")]
-        if pid == "C01":
+        if pid in ("C01", "C07"):
             if samples != pc["samples"] or int(f["rate"]) != pc["rate"] or int(f["ch"]) != pc["ch"] or int(f["bps"]) != pc["bps"] or int(f["total"]) != n:
                 findings.append(dict(short, why="decoded audio/format differs from the input (first diff at %s)" % next((i for i, (a, b) in enumerate(zip(samples, pc["samples"])) if a != b), "length/format")))
         elif pid == "C03":
